@@ -23,7 +23,8 @@ TRUSTED = [
     "axioms: none (Print Assumptions: Closed under the global context)",
     "extraction: ExtrOcamlBasic + ExtrOcamlZBigInt (Z/positive/N -> zarith Big_int_Z with the Extract Inductive/Constant directives of that standard-library file) for the runner only; Qc is extracted as Q with Qred",
     "OCaml glue ocaml/corefast_main.ml, Python orchestration, C++ driver harness/tsgdrv.cpp",
-    "modelled, not verified: GridLocalPolynomial surplus computation (ancestor walk; the Kronecker path for d>=3 is tied numerically only), "
+    "modelled, not verified: GridLocalPolynomial surplus computation (computeDAGup links to the nearest present ancestor + ancestor walk: Model/LocalGridUp.v, "
+    "proved equal to the simpler Model/LocalGrid.v on every parent-complete set; the Kronecker path for d>=3 is tied numerically only), "
     "RuleLocal basis functions; Global/Sequence/Wavelet/Fourier mechanisms are NOT modelled: for them only the statement is evaluated on the implementation",
     "the hypotheses of the reproduction theorem (unit diagonal, zero outside the visited ancestors, topological order) are PROVED for every parent-complete "
     "set of the binary rules (all orders, dimensions); for incomplete sets and the order-0 rule they are checked by the extracted certificate on every grid the run visits",
@@ -159,7 +160,11 @@ def run(res, tier, seed, replay_script=None):
     vlib.proof_coverage(res, PID, props, "cd coq && make Props/Properties_C01.vo && coqc -Q . TV Props/Properties_C01.v", TRUSTED)
     rl_break = rltie.run(res, PID)      # the RuleLocal integer functions re-translated from the header and re-proved equal to the model
     ok_ext, elog = vlib.coq_make(["Extract/ExtractCoreFast.vo"])
-    proof_broken = (not props["ok"]) or bool(res.coverage["forbidden_tokens"])
+    # the model of computeDAGup that the runner evaluates (links to the nearest PRESENT ancestor, faithful on sets with holes) and its theorems
+    props_up = vlib.coq_props("C01_up")
+    res.coverage["faithful_dagup_model"] = {"props_file": "coq/Props/Properties_C01_up.v", "obligations": props_up["obligations"], "discharged": props_up["discharged"],
+                                            "theorems": props_up["theorems"], "print_assumptions": props_up["assumptions"]}
+    proof_broken = (not props["ok"]) or bool(res.coverage["forbidden_tokens"]) or (not props_up["ok"])
     runner = vlib.ocaml_runner("corefast") if ok_ext else None
     drv = vlib.build_driver("tsgdrv")
     wd = os.path.join(vlib.BUILD, "work", PID)
